@@ -87,6 +87,9 @@ type scanner struct {
 	lengthComputing bool
 
 	hasTrailingCharacters bool
+
+	// began is true once the opening bracket has been found.
+	began bool
 }
 
 func newScanner(file *fs.File, oo ...scannerOption) *scanner {
@@ -192,6 +195,9 @@ func (s *scanner) Next() (lexeme.LexEvent, error) {
 
 func (s *scanner) processTail() (lexeme.LexEvent, error) {
 	if s.stack.Len() == 0 {
+		if !s.began && !s.lengthComputing {
+			return lexeme.LexEvent{}, kit.NewJSchemaError(s.file, errs.ErrEnumArrayExpected.F())
+		}
 		return lexeme.LexEvent{}, errEOS
 	}
 
@@ -234,6 +240,7 @@ func (s *scanner) stateBegin(c byte) (state, error) {
 		return scanSkip, err
 	}
 
+	s.began = true
 	s.found(lexeme.ArrayBegin)
 	s.step = s.stateFoundArrayItemBeginOrEmpty
 	return scanSkip, nil
